@@ -409,6 +409,27 @@ func c05JudgeLocal(c c05Case) (clause, detail string) {
 		if _, err := os.Stat(filepath.Join(root, "d", c.Name)); err != nil {
 			return "removeall-removed-sibling", err.Error()
 		}
+	case "copysib", "movesib":
+		// destination is a sibling whose name has the source name as a string prefix (and vice versa)
+		pairs := [][2]string{{"d/" + c.Name, "d/" + c.Name + ".bak"}, {"d/" + c.Name + ".dir", "d/" + c.Name + ".di"}}
+		for _, pr := range pairs {
+			var err error
+			if c.Op == "copysib" {
+				err = cl.Copy(ctx, arg(pr[0]), arg(pr[1]), nil)
+			} else {
+				err = cl.Move(ctx, arg(pr[0]), arg(pr[1]), nil)
+			}
+			if err != nil {
+				return c.Op + "-error", fmt.Sprintf("%s -> %s: %v", pr[0], pr[1], err)
+			}
+			if _, err := os.Stat(filepath.Join(root, filepath.FromSlash(pr[1]))); err != nil {
+				return c.Op + "-wrong-names", err.Error()
+			}
+			_, errSrc := os.Stat(filepath.Join(root, filepath.FromSlash(pr[0])))
+			if (errSrc == nil) != (c.Op == "copysib") {
+				return c.Op + "-source", fmt.Sprint(errSrc)
+			}
+		}
 	case "copy", "move":
 		dstName := c.Name2
 		if dstName == "" {
@@ -531,7 +552,7 @@ func init() {
 		}
 		// LocalFileSystem on disk
 		for _, n := range c05Names {
-			for _, op := range ops {
+			for _, op := range append(append([]string(nil), ops...), "copysib", "movesib") {
 				for _, rel := range []bool{false, true} {
 					opts := []int{0}
 					if op == "readdir" || op == "copy" {
